@@ -40,8 +40,10 @@ LH1_TREE_FNS = r"^(init_tree|init_groups|alloc_group|free_group|make_group_leade
 OBLIGATION_ASSUMPTIONS = [
     (r".", r"^expand_queue$", r"_tree$|\.tree$", r"^store$", "A-tree"),
     (r".", r"^add_codes_with_length$", r"_tree$|\.tree$", r"^store$", "A-tree"),
-    (r"^lh1$", LH1_TREE_FNS, r"LHALH1Decoder\.(nodes|leaf_nodes|groups|group_leader)$", r".", "A-lh1-tree"),
+    # keyed on the unit and the tables, not on function names: the struct is private to lh1_decoder.c (support rule S-lh1), and the
+    # invariant is a statement about the data structure, whoever maintains it
+    (r"^lh1$", r".", r"LHALH1Decoder\.(nodes|leaf_nodes|groups|group_leader)$", r".", "A-lh1-tree"),
     (r"^lh1$", r"^output_byte$", r"^param 1$", r"^store$", "A-lh1-tree"),
-    (r"^lh1$", r"^(init_offset_table|fill_offset_range|read_offset)$", r"LHALH1Decoder\.(offset_lookup|offset_lengths)$", r".", "A-lh1-offset"),
+    (r"^lh1$", r".", r"LHALH1Decoder\.(offset_lookup|offset_lengths)$", r".", "A-lh1-offset"),
     (r"^pm1$", r"^read_byte_decode_index$", r"^global byte_decode_trees$", r"^load$", "T-pm1-trees"),
 ]
